@@ -5,8 +5,8 @@ CONSTANTS
   Cells = {23}
   Halos = {99, 0}
   ModeSet = {202, 402, 1212}
-  NZs = {2, 3, 4, 5}
-  LevelLists = "perms"
+  NZs = {4, 5}
+  LevelLists = "perms3"
   Tabs = {1, 2}
   Analytic = {FALSE, TRUE}
   Family = "levels"
